@@ -2,7 +2,7 @@
 # keep_seeded.py <src-id> <new-id> <json-with-fields> : install /tmp/wt/<src-id>.out as /verif/seeded/<new-id>/
 import json,sys,os,shutil,glob,subprocess
 src,new,fields=sys.argv[1],sys.argv[2],json.loads(sys.argv[3])
-out='/tmp/wt/%s.out'%src; d='/verif/seeded/%s'%new
+out=os.environ.get('WT','/tmp/wt')+'/%s.out'%src; d='/verif/seeded/%s'%new
 os.makedirs(d,exist_ok=True)
 shutil.copy(out+'/patch.diff',d+'/patch.diff')
 if os.path.exists(out+'/DEMO.md'): shutil.copy(out+'/DEMO.md',d+'/DEMO.md')
